@@ -192,6 +192,27 @@ pub fn run(ctx: &'static Ctx) -> i32 {
             }
         }
     }
+    // value faults raised by conversions outside the message path: a negative channel number
+    // converted to an unsigned index (at every dimension) is out of range, not a syntax fault
+    {
+        use scpi::parser::expression::channel_list::{ChannelList, Token as CTok};
+        let specs: &[&[u8]] = &[b"@-1", b"@-1!2", b"@1!-2", b"@-1!2!3", b"@1!-2!3", b"@1!2!-3"];
+        for (i, sp) in specs.iter().enumerate() {
+            fault_cases += 1;
+            let tok = ChannelList::new(sp).and_then(|mut l| l.next()).and_then(|r| r.ok());
+            let code: Option<i16> = match tok {
+                Some(CTok::ChannelSpec(c)) => match c.dimension() {
+                    1 => usize::try_from(c).err().map(|e| e.get_code()),
+                    2 => <(usize, usize)>::try_from(c).err().map(|e| e.get_code()),
+                    _ => <(usize, usize, usize)>::try_from(c).err().map(|e| e.get_code()),
+                },
+                _ => None,
+            };
+            if code.and_then(class_of) != Some(Class::Execution) {
+                ctx.violation(80000 + i as u64, "conversion-fault-class", &format!("channel spec `{}` converted to unsigned indices gives {:?}; a negative index is a value fault (execution-error class)", esc(sp), code), json!({"kind": "spec", "spec": esc(sp)}));
+            }
+        }
+    }
     let mut c = cov();
     c.insert("evaluations".into(), json!(evals + fault_cases));
     c.insert("distinct_nontrivial".into(), json!(std_variants + boundaries + fault_cases));
@@ -232,6 +253,24 @@ pub fn replay(case: &Value) -> Result<String, String> {
             match (res, want) {
                 (Err(e), Some(c)) if class_of(e.get_code()) == Some(c) => Ok(format!("{}", e.get_code())),
                 (r, _) => Err(format!("`{}` -> {:?}", esc(&m), r.err().map(|e| e.get_code()))),
+            }
+        }
+        Some("spec") => {
+            use scpi::parser::expression::channel_list::{ChannelList, Token as CTok};
+            let sp = unesc(case["spec"].as_str().unwrap());
+            let tok = ChannelList::new(&sp).and_then(|mut l| l.next()).and_then(|r| r.ok());
+            let code: Option<i16> = match tok {
+                Some(CTok::ChannelSpec(c)) => match c.dimension() {
+                    1 => usize::try_from(c).err().map(|e| e.get_code()),
+                    2 => <(usize, usize)>::try_from(c).err().map(|e| e.get_code()),
+                    _ => <(usize, usize, usize)>::try_from(c).err().map(|e| e.get_code()),
+                },
+                _ => None,
+            };
+            if code.and_then(class_of) == Some(Class::Execution) {
+                Ok(format!("{:?}", code))
+            } else {
+                Err(format!("conversion-fault-class: {:?}", code))
             }
         }
         _ => engine_failure("bad C14 replay"),
